@@ -152,6 +152,41 @@ func (w *World) doAssert(id string, c Val) {
 					}
 					w.s.unknown = unk
 				}
+				// the rounding model over-approximates IEEE rounding (direction unknown): offer alternative
+				// counterexamples with different integer inputs so that replay can find one that IEEE realises
+				var alts []map[string]string
+				block := ""
+				cur := m
+				func() {
+					defer func() { recover() }()
+					for k := 0; k < 10 && cur != nil; k++ {
+						var diff []string
+						for name, val := range cur {
+							if strings.HasPrefix(name, "in_") && !strings.ContainsAny(val, "\"./t") && val != "true" && val != "false" {
+								v := val
+								if strings.HasPrefix(v, "-") {
+									v = "(- " + v[1:] + ")"
+								}
+								diff = append(diff, "(not (= "+name+" "+v+"))")
+							}
+						}
+						if len(diff) == 0 {
+							break
+						}
+						block += " (or " + strings.Join(diff, " ") + ")"
+						unk := w.s.unknown
+						r3, m3 := w.s.model("(and (not "+cv.t+")"+block+")", w.inputs)
+						w.s.unknown = unk
+						if r3 != "sat" {
+							break
+						}
+						alts = append(alts, m3)
+						cur = m3
+					}
+				}()
+				w.violate(id, "", m)
+				w.viol[len(w.viol)-1].AltModels = alts
+				return
 			}
 			w.violate(id, "", m)
 		case "unknown":
@@ -570,6 +605,45 @@ func (w *World) intrinsic(t *Thread, f *Frame, fnv FuncV, args []Val, c *ssa.Cal
 		v := w.mathPow(args[0], args[1])
 		w.cells[k] = v
 		return v, false
+	case "math.Min", "math.Max":
+		a, b := args[0], args[1]
+		if fa, ok := a.(FSpec); ok && fa.k == 0 {
+			return a, false
+		}
+		if fb, ok := b.(FSpec); ok && fb.k == 0 {
+			return b, false
+		}
+		lt := w.binop(t, tokLSS, a, b, types.Typ[types.Float64], types.Typ[types.Bool])
+		pickA := w.truth(lt) == (name == "math.Min")
+		if w.infeas {
+			return a, false
+		}
+		if pickA {
+			return a, false
+		}
+		return b, false
+	case "math.Floor", "math.Trunc", "math.Ceil":
+		switch x := args[0].(type) {
+		case float64:
+			switch name {
+			case "math.Floor":
+				return math.Floor(x), false
+			case "math.Ceil":
+				return math.Ceil(x), false
+			}
+			return math.Trunc(x), false
+		case FSpec:
+			return x, false
+		case Sym:
+			fl := "(to_real (to_int " + x.t + "))"
+			switch name {
+			case "math.Floor":
+				return symR(fl), false
+			case "math.Ceil":
+				return symR("(- (to_real (to_int (- " + x.t + "))))"), false
+			}
+			return symR("(ite (>= " + x.t + " 0.0) " + fl + " (- (to_real (to_int (- " + x.t + ")))))"), false
+		}
 	case "math.IsInf":
 		sg := args[1].(int64)
 		if fs, ok := args[0].(FSpec); ok {
